@@ -16,6 +16,7 @@ import FwdVerif.Lemmas.ReqUpgrade
 import FwdVerif.Lemmas.ReqSeq
 import FwdVerif.Lemmas.C01Conn
 import FwdVerif.Lemmas.C01Peer
+import FwdVerif.Lemmas.C01Scheme
 
 namespace FwdVerif
 namespace C01
@@ -1252,6 +1253,178 @@ example : checkFwd (processRequest { exCfg with siteCred := some (bs "Basic c2l0
       { exReq with fields := exReq.fields ++ [(bs "authorization", bs ""), (bs "Authorization", bs "Bearer t")] })
       (fun out => outValues out (bs "authorization") == [bs "Basic c2l0ZTpwdw=="]) = true ∧
     basicScheme (bs "bAsIc Zm9v") = true ∧ basicScheme (bs "Bearer tok") = false := by decide +kernel
+
+/-! ## 18 the scheme a request is forwarded with (`Model/C01Scheme.lean`)
+
+`fixScheme` is `Proxy.fixRequestScheme`; `Req.reqTarget` is the scheme and authority `processRequest` works
+with and the transport dials by.  The forwarding fields a client or a front end supplies never re-scheme or
+redirect a request whose target says where it goes; `fixSchemeHeaderFirst` (the same tests with the field asked
+first) is the counter-model. -/
+
+
+/-- the scheme and authority a request leaves the proxy with (`Req.reqTarget`, the fix-up `processRequest`
+    starts with and `requestActions` dials by) are `fixRequestScheme` of the request's parts and the host
+    the request names: nothing else of the request is read -/
+theorem c01_scheme_is_fix_scheme {s a : Bytes} (h : reqTarget ctx r = some (s, a)) :
+    s = fixScheme true ctx.secure (targetScheme r) (firstValue r (bs "x-forwarded-proto")) ∧
+      a = hostOf r := by
+  obtain ⟨h1, h2⟩ := reqTarget_spec h
+  exact ⟨by rw [h1, effScheme_eq_fixScheme], h2⟩
+
+/-- `fixRequestScheme` never reads the field when the request-target has a scheme (whatever `AllowHTTP`), and
+    with forwarder's `AllowHTTP = true` the result is the target's scheme -/
+theorem c01_fix_scheme_absolute_ignores_field (allowHTTP secure : Bool) (u x x' : Bytes) (hu : u ≠ []) :
+    fixScheme allowHTTP secure u x = fixScheme allowHTTP secure u x' ∧ fixScheme true secure u x = u := by
+  cases u with
+  | nil => exact absurd rfl hu
+  | cons c cs => simp [fixScheme]
+
+/-- for EVERY request with an absolute-form target and every content of its fields (X-Forwarded-Proto of any
+    value, number of lines or spelling; X-Forwarded-Host, -Url, -For, Forwarded, …), on the plain listener and
+    inside an intercepted session: the scheme the request is forwarded with is the scheme of its target -/
+theorem c01_absolute_form_scheme_is_the_targets {s a s' a' : Bytes} (ht : r.target = .absolute s a)
+    (hs : s ≠ []) (h : reqTarget ctx r = some (s', a')) : s' = s := by
+  rw [(c01_scheme_is_fix_scheme h).1]
+  have : targetScheme r = s := by unfold targetScheme; rw [ht]
+  rw [this]
+  exact (c01_fix_scheme_absolute_ignores_field true ctx.secure s _ [] hs).2
+
+/-- an origin-form target has no scheme: the first `X-Forwarded-Proto` value stands in when it is not empty
+    (requests relayed by a TLS terminating front end; inside an intercepted session this is what the recorded
+    finding F17 of C07 is about), else the session the request was read from decides -/
+theorem c01_origin_form_scheme {s a : Bytes} (ht : r.target = .origin) (h : reqTarget ctx r = some (s, a)) :
+    s = if firstValue r (bs "x-forwarded-proto") ≠ [] then firstValue r (bs "x-forwarded-proto")
+        else if ctx.secure then bs "https" else bs "http" := by
+  rw [(c01_scheme_is_fix_scheme h).1]
+  have : targetScheme r = [] := by unfold targetScheme; rw [ht]
+  rw [this]
+  unfold fixScheme
+  cases firstValue r (bs "x-forwarded-proto") <;> simp
+
+/-- two requests that differ only in their forwarding field lines (X-Forwarded-Proto, -Host, -For, -Url, Forwarded:
+    any names of that set, any values, any number of lines, anywhere among the fields) leave the proxy for the
+    same authority — the one the request names without those fields —, with the same path and query, and,
+    when the target has a scheme, with that same scheme -/
+theorem c01_forwarding_fields_never_change_authority_or_path {r' : Request} {hop' : Hop} {out' : OutMsg}
+    {s a s' a' : Bytes} (hsame : SameButForwarding r r')
+    (h : processRequest cfg ctx r = .forwarded hop out) (h' : processRequest cfg ctx r' = .forwarded hop' out')
+    (ht : reqTarget ctx r = some (s, a)) (ht' : reqTarget ctx r' = some (s', a')) :
+    a' = a ∧ a = hostOf (withoutForwarding r) ∧
+      (∃ pre pre', out.target = pre ++ (r.path ++ queryPart r) ∧ out'.target = pre' ++ (r.path ++ queryPart r)) ∧
+      (targetScheme r ≠ [] → s' = s) := by
+  have e1 := (reqTarget_spec ht).2
+  have e2 := (reqTarget_spec ht').2
+  have hp : r'.path = r.path := by
+    have := congrArg Request.path hsame; exact this.symm
+  have hq : r'.query = r.query := by
+    have := congrArg Request.query hsame; exact this.symm
+  have htg : r'.target = r.target := by
+    have := congrArg Request.target hsame; exact this.symm
+  have hh : hostOf r' = hostOf r := by
+    rw [← hostOf_withoutForwarding r', ← hostOf_withoutForwarding r, hsame]
+  refine ⟨by rw [e1, e2, hh], by rw [e1, hostOf_withoutForwarding], ?_, ?_⟩
+  · obtain ⟨pre, hpre⟩ := c01_target_suffix h
+    obtain ⟨pre', hpre'⟩ := c01_target_suffix h'
+    refine ⟨pre, pre', hpre, ?_⟩
+    rw [hpre']
+    unfold queryPart
+    rw [hp, hq]
+  · intro hne
+    have a1 := (c01_scheme_is_fix_scheme ht).1
+    have a2 := (c01_scheme_is_fix_scheme ht').1
+    have : targetScheme r' = targetScheme r := by unfold targetScheme; rw [htg]
+    rw [a1, a2, this]
+    exact (c01_fix_scheme_absolute_ignores_field true ctx.secure _ _ _ hne).1
+
+/-- the connection opened for a request with an absolute-form target is the one its OWN scheme and
+    authority call for -/
+theorem c01_absolute_form_actions {s a : Bytes} (h : processRequest cfg ctx r = .forwarded hop out)
+    (ht : r.target = .absolute s a) (hs : s ≠ []) :
+    requestActions cfg ctx r = [transportAction cfg s (hostOf r) out] := by
+  obtain ⟨g0, h3, h4, auth, t⟩ := processRequest_forwarded h
+  have hrt := reqTarget_of_read (ctx := ctx) t.read
+  have := c01_absolute_form_scheme_is_the_targets ht hs hrt
+  rw [requestActions_forwarded h, ← (reqTarget_spec hrt).1, this]
+
+/-- an `http` request is never preceded by a tunnel set-up, whatever the route: the hop reads it in clear -/
+theorem c01_http_request_sent_in_clear (cfg : Cfg) (host : Bytes) (out : OutMsg) :
+    setupHeads (transportAction cfg (bs "http") host out) = [] ∧
+      (transportAction cfg (bs "http") host out).sent.map (·.msg) = [out] := by
+  unfold transportAction setupHeads
+  cases cfg.upstream <;> simp
+
+/-- an `https` request routed through an HTTP upstream proxy: exactly one `CONNECT` for the origin's address,
+    then the request inside the tunnel -/
+theorem c01_https_request_tunnelled (cfg : Cfg) (host hp : Bytes) (auth : Option Bytes) (out : OutMsg)
+    (hu : cfg.upstream = .http hp auth) :
+    (transportAction cfg (bs "https") host out).sent =
+      [⟨.proxy, true, transportConnectHead (canonicalAddr (bs "https") host) auth (connectExtra cfg)⟩,
+       ⟨.origin, false, out⟩] := by
+  unfold transportAction
+  rw [hu]
+  simp [http_ne_https]
+
+/-- the transport refuses a request only for a scheme of the client's own making: never for an
+    absolute-form `http://` or `https://` target, whatever the fields say -/
+theorem c01_unsupported_only_origin_form {s a : Bytes} {x : Reach} (ht : r.target = .absolute s a)
+    (hs : s = bs "http" ∨ s = bs "https") (h : reach ctx r = some x) : x.contact ≠ .unsupported := by
+  unfold reach at h
+  cases hrt : reqTarget ctx r with
+  | none => rw [hrt] at h; cases h
+  | some t =>
+    obtain ⟨s', a'⟩ := t
+    rw [hrt] at h
+    simp only [Option.map_some, Option.some.injEq] at h
+    have hne : s ≠ [] := by rcases hs with h | h <;> (rw [h]; decide +kernel)
+    have := c01_absolute_form_scheme_is_the_targets ht hne hrt
+    subst this
+    rw [← h]
+    show contactOf s' ≠ .unsupported
+    rcases hs with h | h <;> (rw [h]; decide +kernel)
+
+/-- asking the field first gives the same scheme whenever there is no field, no scheme in the target, or
+    the two agree — which is every request a generator without disagreeing fields produces -/
+theorem c01_header_first_agrees (allowHTTP secure : Bool) (u x : Bytes) (h : x = [] ∨ u = [] ∨ x = u) :
+    fixSchemeHeaderFirst allowHTTP secure u x = fixScheme allowHTTP secure u x := by
+  unfold fixSchemeHeaderFirst fixScheme
+  rcases h with h | h | h
+  · subst h; cases u <;> simp
+  · subst h; cases x <;> simp
+  · subst h; cases x <;> simp
+
+/-- … and differs on `GET http://origin.test/x` that carries `X-Forwarded-Proto: https` -/
+theorem c01_header_first_witness :
+    fixScheme true false (bs "http") (bs "https") = bs "http" ∧
+    fixSchemeHeaderFirst true false (bs "http") (bs "https") = bs "https" ∧
+    contactOf (fixScheme true false (bs "http") (bs "https")) = .clear ∧
+    contactOf (fixSchemeHeaderFirst true false (bs "http") (bs "https")) = .tls := by decide +kernel
+
+
+/-- the same on a whole request, `GET http://origin.test/x` + `X-Forwarded-Proto: https` through an upstream
+    HTTP proxy: the code sends the absolute-form request in clear without any tunnel set-up; with the scheme the
+    other order computes the upstream proxy would be sent `CONNECT origin.test:443` instead -/
+theorem c01_header_first_request_witness :
+    reqTarget exCtx exReqFrontEnd = some (bs "http", bs "origin.test") ∧
+    fixSchemeHeaderFirst true false (targetScheme exReqFrontEnd)
+      (firstValue exReqFrontEnd (bs "x-forwarded-proto")) = bs "https" ∧
+    (requestActions exCfgUp exCtx exReqFrontEnd).map (fun a => (setupHeads a).length) = [0] ∧
+    (match processRequest exCfgUp exCtx exReqFrontEnd with
+      | .forwarded (.proxy _) out =>
+        out.target == bs "http://origin.test/x" &&
+        (setupHeads (transportAction exCfgUp (bs "https") (bs "origin.test") out)).map (·.msg.target)
+          == [bs "origin.test:443"]
+      | _ => false) = true := by decide +kernel
+
+-- `GET http://origin.test/x` + `X-Forwarded-Proto: https`: forwarded as http; the same fields on an origin-form
+-- request make it https (the front-end case)
+example : reqTarget exCtx exReqFrontEnd = some (bs "http", bs "origin.test") ∧
+    reqTarget exCtx { exReqFrontEnd with target := .origin } = some (bs "https", bs "origin.test") ∧
+    reqTarget { exCtx with secure := true } { exReqFrontEnd with target := .origin, fields := [(bs "Host", bs "origin.test")] }
+      = some (bs "https", bs "origin.test") ∧
+    (reach exCtx { exReqFrontEnd with target := .origin, fields := [(bs "Host", bs "origin.test"), (bs "x-forwarded-proto", bs "ws")] }).map (·.contact)
+      = some .unsupported ∧
+    (withoutForwarding exReqFrontEnd).fields = (withoutForwarding { exReqFrontEnd with fields := [(bs "FORWARDED", bs "host=evil.test"),
+      (bs "Host", bs "origin.test"), (bs "x-forwarded-host", bs "evil.test:8443")] }).fields := by decide +kernel
 
 /-
   What is not proved here.
